@@ -62,6 +62,11 @@ def cases(shard):
                 # implementation under 'env', the environment under 'sys'
                 yield dict(kind='hand', i=shard['i'], qinit=q, moore=moore,
                            swapped_keys=True)
+                # the same automaton enumerated once before, under every
+                # form: the second result must not depend on the first
+                for prior in synth.QINITS:
+                    yield dict(kind='hand', i=shard['i'], qinit=q,
+                               moore=moore, prior=prior)
         return
     for c in fam.games(shard, rabin=shard['rabin']):
         h = int(stable_hash(c)[:8], 16)
@@ -281,6 +286,12 @@ def _impl_reads_env_next(aut, gm, ik='impl'):
 def check_graph(case, acc, aut, gm, cl, sysname, q, P, G, rabin,
                 envname='env'):
     from omega.games import enumeration as enum
+    if case.get('prior'):
+        # only the second result is judged (by the property's own oracle)
+        try:
+            enum.action_to_steps(aut, envname, sysname, qinit=case['prior'])
+        except AssertionError:
+            pass
     try:
         g = enum.action_to_steps(aut, envname, sysname, qinit=q)
     except AssertionError as exc:
